@@ -491,16 +491,16 @@ Proof. cbv zeta. repeat split; vm_compute; reflexivity. Qed.
 End C03_autowrite.
 
 (* ================================================================== the autowrite of bufs_modified ON THE C TEXT (coq/TrQuit.v, tr-quit's
-   translation of ex.c's bufs_modified, whitelist tools/c2clite.d/87_quit.list; lbuf_save is the oracle index X_lbuf_save -- its own text is
-   C03_tr_lbuf_save).  With xaw != 0, on a slot whose buffer lbuf_modified reports modified and whose path is not "": the translated text
-   bumps the command counter of that buffer (cell useq: memory m1), calls lbuf_save(b->lb, 0, -1, b->path, 0, b->mtime) -- WITHOUT force,
-   with the slot's own remembered stamp -- and returns whether the answer r is a message; the memory it leaves is EXACTLY the memory m2 the
-   save left: no cell of bufs[] (the remembered stamp b->mtime), no cell of the struct lbuf (the saved mark) is written after the save,
-   whatever the save answered, and no other untranslated function (mtime, lbuf_saved, ex_show) is called.  This is IoAwDefs.bufs_modified's
-   `(match st with SOk => false | _ => true end, st, bf, fs', r)`: the record bf handed back unchanged.  A rewrite that re-reads the stamp or
-   marks the buffer saved inside the autowrite -- before or after looking at r -- breaks this statement. *)
-(* OUT UNTIL coq/TrQuit.v (C02, build4-C02) FOLLOWS /repo 37c81b2 -- the statement below is about the text BEFORE that commit (no bookkeeping
-   after the save); the new text calls lbuf_saved and mtime and stores into b->mtime after a save that returned NULL, and only then.
+   translation of ex.c's bufs_modified after /repo 37c81b2, whitelist tools/c2clite.d/87_quit.list; lbuf_save is the oracle index
+   X_lbuf_save -- its own text is C03_tr_lbuf_save --, mtime the oracle X_mtime, lbuf_saved the translated function).  With xaw != 0, on
+   a slot whose buffer lbuf_modified reports modified and whose path is not "": the translated text bumps the command counter of that
+   buffer (cell useq: memory m1) and calls lbuf_save(b->lb, 0, -1, b->path, 0, b->mtime) -- WITHOUT force, with the slot's own
+   remembered stamp.  The answer r is a MESSAGE: bufs_modified returns 1 and the memory is EXACTLY the memory m2 the save left -- no
+   cell of bufs[] (the remembered stamp), no cell of the struct lbuf (the saved mark) is written, mtime / lbuf_saved / ex_show are not
+   called.  The answer is NULL: lbuf_saved(b->lb, 0) runs on the memory the save left, then mtime(b->path) is asked and its answer
+   is stored into b->mtime -- the one cell of the table that changes (set_cs_mtime) --, 0 is returned.  This is IoAwDefs.bufs_modified:
+   `SOk => (false, st, {| .. b_mtime := mtime_of lk fs' path; b_dirty := false |}, ..) | _ => (true, st, bf, ..)`.  A rewrite that re-reads
+   the stamp or marks the buffer saved BEFORE looking at r (seeded/C03i) breaks this statement. *)
 From NV Require CLite CLiteProps GenCFuncs CLiteTac CLiteExt TrLbufBase TrLbuf TrBufs TrBufsLbuf TrQuit UndoDefs.
 Section C03_translated_autowrite.
 Import CLite CLiteProps GenCFuncs CLiteTac CLiteExt TrLbufBase TrLbuf TrBufs TrQuit.
@@ -516,12 +516,17 @@ Theorem C03_tr_bufs_modified_aw : forall ext m t i bl blk lb msg a pb p m2 d fue
           callx ext cprog fuel (S (S (S d))) F_bufs_modified [VInt (Z.of_nat i); msg] m = Ok (VInt 1, m2)
   | _ :: _ => forall r, ptr_val r ->
           ext X_lbuf_save [VPtr bl 0; VInt 0; VInt (-1); VPtr pb 0; VInt 0; VInt (wrap I64 (cs_mtime (nths t i)))] m1 = Ok (r, m2) ->
-          callx ext cprog fuel (S (S (S d))) F_bufs_modified [VInt (Z.of_nat i); msg] m = Ok (VInt (b2z (negb (is_null r))), m2)
+          if is_null r
+          then forall u3 m3 ts m4, tab_at m2 t ->
+                 callx ext cprog fuel (S (S d)) F_lbuf_saved [VPtr bl 0; VInt 0] m2 = Ok (u3, m3) -> tab_at m3 t ->
+                 ext X_mtime [VPtr pb 0] m3 = Ok (VInt ts, m4) -> tab_at m4 t ->
+                 callx ext cprog fuel (S (S (S d))) F_bufs_modified [VInt (Z.of_nat i); msg] m
+                 = Ok (VInt 0, upd m4 G_bufs (tab_cells (upd t i (set_cs_mtime (nths t i) (wrap I64 ts)))))
+          else callx ext cprog fuel (S (S (S d))) F_bufs_modified [VInt (Z.of_nat i); msg] m = Ok (VInt 1, m2)
   end.
 Proof. exact tr_bufs_modified_aw. Qed.
 Print Assumptions C03_tr_bufs_modified_aw.
 End C03_translated_autowrite.
-*)
 
 (* the same guards stated over the REMEMBERED stamp alone -- any table, any state, no history, no ghost, no clock: whenever the file of a
    slot is stamped later than the stamp the slot remembers, (1) a write without `!` of the current slot onto its own path, (2) leaving
